@@ -349,7 +349,7 @@ def _get_document(*, source: Union[str, Path], timeout: int) -> Union[dict[str, 
             response = httpx.get(source, timeout=timeout)
             yaml_bytes = response.content
             if "content-type" in response.headers:
-                content_type = response.headers["content-type"].split(";")[0]
+                content_type = response.headers["content-type"].split(";")[0].strip().lower()
             else:  # pragma: no cover
                 content_type = mimetypes.guess_type(source, strict=True)[0]
 
